@@ -624,6 +624,10 @@ func (o *FilterOptimizer) unionPrefix(l, r *ScanType) *ScanType {
 }
 
 func inRange(start, end, val []byte, isEnd bool) bool {
+	if start == nil && end == nil {
+		// open on both sides: every key is in range
+		return true
+	}
 	if start == nil && end != nil {
 		if val == nil && !isEnd {
 			return true
